@@ -25,6 +25,9 @@ Reason(e) ==
   ELSE IF e.after # e.kids THEN "tree-modified"
   ELSE IF e.direct /\ e.pre # Pre(e.kids, 1)   THEN "preorder-differs-from-Pre"
   ELSE IF e.direct /\ e.post # Post(e.kids, 1) THEN "postorder-differs-from-Post"
+  \* the iterator value is re-entrant: a pass is not disturbed by another pass over the same value
+  ELSE IF e.nested /\ (e.npre # e.pre \/ e.ninner # e.pre) THEN "preorder-pass-disturbed-by-nested-pass"
+  ELSE IF e.nested /\ e.npost # e.post THEN "postorder-pass-disturbed-by-nested-pass"
   ELSE "ok"
 
 TInit == l = 1 /\ bad = <<>>
